@@ -84,8 +84,9 @@ TOGGLES = [
     ("t_esc_auth", ["raw", "letter"]),
     ("t_wrap", ["", "left", "right", "tabs", "nbsp", "ctrl-space-left", "space-ctrl-right"]),
     ("t_ctrl", ["", "after-scheme", "in-host", "before-path", "end-c1", "in-query-del"]),
-    ("t_dot", ["", "lead-dot", "lead-pair", "lead-empty", "mid-dot", "mid-pair", "mid-empty", "mid-emptypair"]),
+    ("t_dot", ["", "lead-dot", "lead-pair", "lead-empty", "mid-dot", "mid-pair", "mid-empty", "mid-emptypair", "tail-dot", "tail-pair"]),
     ("t_empty", ["", "?", "#", "?#"]),
+    ("t_dotesc", ["raw", "%2E", "%2e", ".%2E"]),  # spelling of the dots of the inserted dot segments ('.' may safely appear raw)
 ]
 
 
@@ -160,7 +161,16 @@ def build_variant(case, toggled=True):
     if td:
         where, kind = td.split("-")
         ins = {"dot": "/.", "pair": "/x/..", "empty": "/", "emptypair": "/x//.."}[kind]
-        if where == "lead":
+        de = g("t_dotesc", "raw")
+        if de == ".%2E":
+            ins = ins.replace("..", ".%2E")
+        elif de != "raw":
+            ins = ins.replace(".", de)
+        if where == "tail":
+            # after a path that ends with '/' ('/a/.' and '/a/x/..' resolve to '/a/'); the root when there is no path
+            if path == "" or path.endswith("/"):
+                path = (path or "/") + ins[1:]
+        elif where == "lead":
             # at the start of the path ('' and '/' both denote the root: keep a non-empty path)
             path = ins + (path if path else "/")
         else:
